@@ -167,7 +167,7 @@ func (s *Sys) Key() string {
 	return k
 }
 
-var valMenu = []string{"vcreate(V1)", "vdeposit(V0)", "vstatus(V0)", "vreward(V0)", "dlg+(V0)", "dlg+(V2)", "dlg-(V0)"}
+var valMenu = []string{"vcreate(V1)", "vdeposit(V0)", "vstatus(V0)", "vreward(V0)", "dlg+(V0)", "dlg+(V2)", "dlg-(V0)", "dlg-(V2)"}
 
 func runStateDB(r *mc.Run) {
 	depth := 5
